@@ -45,6 +45,42 @@ def _work(args):
     return len(states)
 
 
+def _scans(d):
+    out, scan = [list(d["dom"])], list(d["dom"])
+    for b, o in zip(d["boxes"], d["offs"]):
+        scan = scan[:o] + list(b["cod"]) + scan[o + len(b["dom"]):]
+        out.append(list(scan))
+    return out
+
+
+def splice_snake(d, k, w, left):
+    """the same morphism with the wire w of the boundary after k boxes replaced by a snake (cap on the left or right)"""
+    a = _scans(d)[k][w]
+    ar, al = [a[0], a[1] + 1], [a[0], a[1] - 1]
+    K = lambda kind, dom, cod: {"id": 0, "kind": kind, "dom": dom, "cod": cod, "dg": 0}
+    if left:
+        new, offs = [K(3, [], [a, al]), K(2, [al, a], [])], [w, w + 1]
+    else:
+        new, offs = [K(3, [], [ar, a]), K(2, [a, ar], [])], [w + 1, w]
+    return {"dom": d["dom"], "cod": d["cod"], "boxes": d["boxes"][:k] + new + d["boxes"][k:],
+            "offs": d["offs"][:k] + offs + d["offs"][k:]}
+
+
+def nested_family():
+    """snakes inside the legs of snakes (wider than the exhaustive model allows): every way of replacing one wire of a
+    snake on one wire by another snake, twice over for the tight ones; with and without a box on the straight part"""
+    out = []
+    for z in (-1, 0, 1):
+        base = {"dom": [[1, z]], "cod": [[1, z]], "boxes": [], "offs": []}
+        level1 = [splice_snake(base, 0, 0, left) for left in (True, False)]
+        level2 = [splice_snake(d, k, w, left) for d in level1 for k in range(len(d["boxes"]) + 1)
+                  for w in range(len(_scans(d)[k])) for left in (True, False)]
+        level3 = [splice_snake(d, k, w, left) for d in level2[::3] for k in (1, 2) if k <= len(d["boxes"])
+                  for w in range(len(_scans(d)[k])) for left in (True, False)]
+        out += level1 + level2 + level3[::2]
+    return out
+
+
 def cap_into_cup(d):
     """does some wire produced by a cap end in a cup (without passing through a box)?"""
     wires, fresh = [("in", k) for k in range(len(d["dom"]))], 0
@@ -92,7 +128,7 @@ def run(tier, seed, t0):
             snakes = rnd.sample(snakes, 3 * c["replay"])
         interesting = rnd.sample(interesting, min(len(interesting), c["replay"] // 3))
         rest = rnd.sample(rest, min(len(rest), c["replay"] // 4))
-        todo = snakes + interesting + rest
+        todo = snakes + interesting + rest + nested_family()
         procs = 16
         chunks = [(todo[k::procs], os.path.join(work, "obs-%d.ndjson" % k)) for k in range(procs)]
         with mp.get_context("fork").Pool(procs) as pool:
